@@ -993,8 +993,10 @@ theorem run_clean (P : Params) (cfg : List Key) (d : Disk) (live : List Key) (f 
     · rw [hrt] at hrt'
       cases hrt'
       rw [heq]
-      have hproc := process_clean P f' (a == .revOnly) now _ _ hprep
-      generalize process P f' (a == .revOnly) now _ _ = l at hproc
+      have hproc := process_clean P f' (a == .revOnly) now
+        (prepare cfg (readState d live fl now) tomb0 now).1 (prepare cfg (readState d live fl now) tomb0 now).2 hprep
+      generalize process P f' (a == .revOnly) now
+        (prepare cfg (readState d live fl now) tomb0 now).1 (prepare cfg (readState d live fl now) tomb0 now).2 = l at hproc
       constructor
       · exact hproc
       · intro hl k hk
